@@ -140,12 +140,30 @@ def generate(rng, tier, idx):
     target = None
     if mode != 'none':
         deep = [p for p in files if files[p] != 'Manifest'] or list(files)
-        kind = rng.choice(['change', 'change', 'add', 'remove', 'dist', 'remove-manifest'])
+        kind = rng.choice(['change', 'change', 'add', 'remove', 'dist', 'remove-manifest', 'fill-empty'])
         if kind == 'remove-manifest' and not [p_ for p_ in files if files[p_] != 'Manifest']:
             kind = 'remove'
+        empties = [mp_ for mp_ in manifests if mp_ in parent and not manifests[mp_]]
+        if kind == 'fill-empty' and not empties:
+            kind = 'add'
         if kind == 'dist' and not [n for n, mp in dists.items() if mp != 'Manifest']:
             kind = 'change'
-        if kind == 'dist':
+        if kind == 'fill-empty':
+            # an EMPTY sub-Manifest, recorded by its parent as `MANIFEST path 0` without any hash, is given an entry (and
+            # the file to go with it); nothing above it is touched
+            gov = rng.choice(empties)
+            gd = os.path.dirname(gov)
+            relg = os.path.relpath(gov, os.path.dirname(parent[gov]) or '.')
+            for e_ in manifests[parent[gov]]:
+                if e_['tag'] == 'MANIFEST' and e_['path'] == relg:
+                    e_['hashes'] = []
+                    e_.pop('override', None)
+            np_ = pjoin(gd, 'evil-new')
+            muts.append({'m': 'add', 'p': np_, 'k': 'file', 'c': 'evil new file'})
+            new_entries = [{'tag': 'DATA', 'path': 'evil-new', 'hashes': ['SHA256']}]
+            files[np_] = gov
+            target = np_
+        elif kind == 'dist':
             name = rng.choice([n for n, mp in dists.items() if mp != 'Manifest'])
             gov = dists[name]
             new_entries = [dict(e, c='evil ' + name) if (e['tag'] == 'DIST' and e['path'] == name) else e
@@ -180,7 +198,10 @@ def generate(rng, tier, idx):
                 new_entries = [e for e in manifests[gov] if not (e.get('path') == rel and e['tag'] != 'DIST')]
                 target = p
         ch = chain_up(gov)
-        if kind == 'remove-manifest':
+        if kind == 'fill-empty':
+            j = 1
+            mode = 'tamper'
+        elif kind == 'remove-manifest':
             j = 0
             mode = 'tamper'
         elif mode == 'full' or len(ch) == 1:
